@@ -40,7 +40,7 @@ func (h *history) checkRounds(height int64, vals *types.ValidatorSet, rv *ref.RS
 		cur = cur.IncrementOnce()
 		h.stats.rounds++
 		if k, d := diffRef(snap(step), cur); k != "" {
-			h.c.Violation("initchain-valset-rotation-differs", fmt.Sprintf("height %d round %d: the set differs from the reference rotation: %s", height, round, d),
+			h.c.Violation(h.rotKey(), fmt.Sprintf("height %d round %d: the set differs from the reference rotation: %s", height, round, d),
 				h.witness(map[string]interface{}{"height": height, "round": round, "set_at_round_0": jsnap(from), "implementation": jsnap(snap(step)), "reference": jref(cur)}))
 			return false
 		}
@@ -48,7 +48,7 @@ func (h *history) checkRounds(height int64, vals *types.ValidatorSet, rv *ref.RS
 		if k, d := diffRef(snap(one), cur); k != "" {
 			key := "increment-k-rounds-in-one-call-differs-from-k-single-rounds"
 			if kd, _ := diffRef(snap(one), oneCallModel(from, int64(round))); kd != "" {
-				key = "initchain-valset-rotation-differs" // not the known shortcut
+				key = h.rotKey() // not the known shortcut
 			}
 			h.c.Violation(key, fmt.Sprintf("height %d: CopyIncrementProposerPriority(%d) differs from %d single rounds: %s", height, round, round, d),
 				h.witness(map[string]interface{}{"height": height, "k": round, "set_before": jsnap(from), "after_one_call": jsnap(snap(one)), "reference_after_k_rounds": jref(cur),
